@@ -35,15 +35,30 @@ func vTable(variant int) map[string]Route {
 		t["a"] = Route{Type: "t", Name: "z", Table: "A"} // request "a" now lives in another database
 	case 2:
 		t["b"] = Route{Type: "t", Name: "x", Table: "C"} // request "b" now uses another table
+	case 3:
+		for k, r := range t { // everything now lives in databases of another type; no route names the old type
+			r.Type = "u"
+			t[k] = r
+		}
+	case 4:
+		t["b"] = Route{Type: "u", Name: "x", Table: "B"} // request "b" now lives in a database of another type
 	}
 	return t
 }
 
 func vProducerOver(fs *vstore.FS, variant int) *Producer { return vProducerOrd(fs, variant, false) }
 
+// the databases of the second type "u" that belong to the same (persistent) set of stores
+var vOtherType = map[*vstore.FS]*vstore.FS{}
+
 func vProducerOrd(fs *vstore.FS, variant int, nondet bool) *Producer {
+	fsU := vOtherType[fs]
+	if fsU == nil {
+		fsU = vstore.NewFS()
+		vOtherType[fs] = fsU
+	}
 	sym.NondetMaps(nondet) // the routing table is a Go map: every iteration order (route harness)
-	p, err := NewProducer(map[TypeName]kvdb.FullDBProducer{"t": vstore.FullProducer{FS: fs}}, vTable(variant), vRecordsKey)
+	p, err := NewProducer(map[TypeName]kvdb.FullDBProducer{"t": vstore.FullProducer{FS: fs}, "u": vstore.FullProducer{FS: fsU}}, vTable(variant), vRecordsKey)
 	sym.NondetMaps(false)
 	if err != nil {
 		panic(err)
@@ -115,7 +130,7 @@ func VerifH_C26_verify() {
 	if _, err := p1.OpenDB(q2); err == nil {
 		opened = append(opened, q2)
 	}
-	variant := sym.Choice("variant", 3)
+	variant := sym.Choice("variant", 5)
 	p3 := vProducerOver(fs, variant)
 	moved := false
 	for _, q := range opened {
